@@ -71,7 +71,34 @@ impl XRule
 
 /*  the implementation's order of rules: Vec<Rule>::sort() on (targets, sources, command); targets are unique,
     so this is the order of the sorted target lists */
-pub fn sort_rules(rules : &mut Vec<XRule>) { rules.sort_by(|a, b| a.tg.cmp(&b.tg)); }
+pub fn sort_rules(rules : &mut Vec<XRule>)
+{
+    /* the parser delivers a rule's paths in bundle order (siblings by name, directory by directory), and Vec<Rule>::sort()
+       compares those vectors; targets are unique, so the target vector decides */
+    rules.sort_by(|a, b| bundle_order(&a.tg).cmp(&bundle_order(&b.tg)));
+}
+
+pub fn bundle_order(paths : &Vec<String>) -> Vec<String>
+{
+    let mut v = paths.clone();
+    v.sort_by(|a, b| a.split('/').collect::<Vec<_>>().cmp(&b.split('/').collect::<Vec<_>>()));
+    v
+}
+
+/*  lines of a section: directories become bundle lines with tab-indented children */
+fn bundle_lines(paths : &Vec<String>, depth : usize, rev : bool, out : &mut Vec<String>)
+{
+    let mut heads : Vec<String> = vec![];
+    for p in paths { let h = p.split('/').next().unwrap().to_string(); if !heads.contains(&h) { heads.push(h); } }
+    if rev { heads.reverse(); }
+    for h in heads
+    {
+        out.push(format!("{}{}", "\t".repeat(depth), h));
+        let pre = format!("{}/", h);
+        let kids : Vec<String> = paths.iter().filter(|p| p.starts_with(&pre)).map(|p| p[pre.len()..].to_string()).collect();
+        if kids.len() > 0 { bundle_lines(&kids, depth + 1, rev, out); }
+    }
+}
 
 pub fn rules_json(rules : &Vec<XRule>) -> Value
 {
@@ -85,8 +112,9 @@ pub fn render(rules : &Vec<XRule>) -> String
     let mut out = String::new();
     for r in rules
     {
-        let mut tg = r.tg.clone(); let mut src = r.src.clone();
-        if r.rev { tg.reverse(); src.reverse(); }
+        let mut tg = vec![]; let mut src = vec![];
+        bundle_lines(&r.tg, 0, r.rev, &mut tg);
+        bundle_lines(&r.src, 0, r.rev, &mut src);
         for t in &tg { out.push_str(t); out.push('\n'); }
         out.push_str(":\n");
         for s in &src { out.push_str(s); out.push('\n'); }
